@@ -11,14 +11,16 @@
 (*                data = the payload bytes are the ones the harness put in                          *)
 (*  op = "fuzz"   a string of NO known class (random character edits): out, canon                   *)
 (*  op = "uc"     a string whose Bech32m payload the harness un-jumbled and parsed ITSELF into a    *)
-(*                container c = (hk, items, padding, size, struct) was given to decoder dec         *)
+(*                container c = (hk, items, padding, size, struct) was given to decoder dec; an item *)
+(*                is {n: typecode number, anything above 0x02000000 shown as 0x02000001; l: lenOK}   *)
 (*                ("addr" | "fvk" | "ivk" = unified::{Address,Ufvk,Uivk}::decode, "zaddr" =         *)
 (*                ZcashAddress::try_from_encoded): out, canon, same (items as parsed = the harness' *)
 (*                items, in order, unknown ones verbatim), netok (network = the HRP's)              *)
 (*  op = "jumble" f4jumble / f4jumble_inv on n random bytes: err, inv (inv(jumble x) = x and        *)
 (*                jumble(inv x) = x), len (length kept), ref (= the harness' BLAKE2b reference      *)
 (*                construction, both directions), keep (input untouched on error)                   *)
-(*  op = "cin"    convert_if_network(want) on a parsed address (kind, net): ok                      *)
+(*  op = "cin"    convert_if_network(want) on a parsed address (kind, net): ok (converted, else     *)
+(*                IncorrectNetwork), good (the same kind and bytes, the wanted network, no panic)   *)
 (*  op = "end"    n = number of records before it                                                   *)
 (* The records are independent; a step is possible iff the logged outcome is the one the            *)
 (* specification (Zip316, AddressDispatch) allows for the logged input.                             *)
@@ -32,7 +34,7 @@ D == INSTANCE AddressDispatch
 Rec == ndJsonDeserialize(IOEnv.TRACE)
 
 Container(e) == [kind    |-> e.hk,
-                 items   |-> [i \in 1..Len(e.items) |-> [tc |-> e.items[i].t, lenOK |-> e.items[i].l]],
+                 items   |-> [i \in 1..Len(e.items) |-> [n |-> e.items[i].n, lenOK |-> e.items[i].l]],
                  padding |-> e.padding,
                  size    |-> e.size,
                  struct  |-> e.struct]
@@ -42,7 +44,7 @@ ContainerSyntaxOK(e) ==
     /\ e.padding \in {"hrp", "wrong"}
     /\ e.struct \in {"ok", "truncated", "noncanonical"}
     /\ e.size \in Nat
-    /\ \A i \in 1..Len(e.items) : e.items[i].t \in Z!TC /\ e.items[i].l \in BOOLEAN
+    /\ \A i \in 1..Len(e.items) : e.items[i].n \in 0..(Z!MaxTypecode + 1) /\ e.items[i].l \in BOOLEAN
 UcExpected(e) == e.hk # "none" /\ Z!Accepts(IF e.dec = "zaddr" THEN "addr" ELSE e.dec, Container(e))
 
 StrExpected(e) == D!Parse(e.s)
@@ -77,6 +79,7 @@ Allowed(e) ==
            /\ [kind |-> e.kind, net |-> e.net] \in D!ParsedValues
            /\ e.want \in D!Nets
            /\ e.ok = D!ConvOK([kind |-> e.kind, net |-> e.net], e.want)
+           /\ e.good = TRUE
       [] OTHER -> FALSE
 
 \* for the report of a rejected record: what the specification allows there
